@@ -2,6 +2,12 @@
 // what they leave undecided. The texts go into the evidence files.
 package props
 
+import (
+	"strings"
+
+	"semaverif/internal/core"
+)
+
 type Prop struct {
 	ID        string
 	Rules     []string
@@ -262,4 +268,41 @@ func init() {
 	Technique["C18"] += "; guard-edge dominance of divisions by a length; clamp-before-sum shape of the page bounds"
 	Technique["C07"] += "; loop-phi use analysis of error values; reachability of success returns avoiding the blocks that test an error"
 	Technique["C16"] += "; edge dominance of the scan callback by the prefix test in both storage backends"
+}
+
+// The constructs of core.AlsoServes are reported by the checks of further properties: their rule
+// families join those properties' rule lists, and the evidence text says so.
+func init() {
+	for _, a := range core.AlsoServes {
+		rule := a.Prefix
+		if i := strings.Index(rule, "/"); i >= 0 {
+			rule = rule[:i]
+		}
+		for _, id := range a.Props {
+			p := Get(id)
+			if p == nil {
+				continue
+			}
+			has := false
+			for _, r := range p.Rules {
+				if r == rule {
+					has = true
+				}
+			}
+			if !has {
+				p.Rules = append(p.Rules, rule)
+			}
+		}
+	}
+	also := map[string][]string{}
+	for _, a := range core.AlsoServes {
+		for _, id := range a.Props {
+			also[id] = append(also[id], strings.TrimSuffix(a.Prefix, ":"))
+		}
+	}
+	for i := range All {
+		if l := also[All[i].ID]; len(l) > 0 {
+			All[i].Decides += "; in addition the constructs " + strings.Join(l, ", ") + " — decided by rules written for other properties and shown by independently confirmed changes (DESIGN.md §10.1) to be necessary for this one as well — are reported by this check too"
+		}
+	}
 }
